@@ -116,7 +116,7 @@ func (g *gen) newSmpNet(w *world, version int) *smpNet {
 			n.l.enqueue(o, ts)
 			n.l.settle(10)
 		}
-		w.tick(61)
+		w.tick(75)
 		st := []*party{a, b}[g.r.Intn(2)]
 		n.l.enqueue(st, []otr3.ValidMessage{w.query(st)})
 		n.l.settle(30)
@@ -127,7 +127,16 @@ func (g *gen) newSmpNet(w *world, version int) *smpNet {
 func (g *gen) secretPair() ([]byte, []byte, bool) {
 	base := [][]byte{[]byte("hunter2"), {}, bytes.Repeat([]byte("long secret "), 40), {0, 1, 2, 0xff, 0}, []byte("ünïcödé")}[g.r.Intn(5)]
 	if g.r.Intn(2) == 0 {
+		if g.r.Intn(3) == 0 {
+			// equal secrets that end in a line break, a blank or a NUL byte
+			base = append(append([]byte{}, base...), [][]byte{[]byte("\n"), []byte("\r\n"), []byte(" "), {0}, []byte("\r")}[g.r.Intn(5)]...)
+		}
 		return base, append([]byte{}, base...), true
+	}
+	if g.r.Intn(5) < 3 {
+		if s1, s2, ok := g.nearMissPair(base); ok {
+			return s1, s2, false
+		}
 	}
 	other := append([]byte{}, base...)
 	if len(other) == 0 {
@@ -136,6 +145,48 @@ func (g *gen) secretPair() ([]byte, []byte, bool) {
 		other[g.r.Intn(len(other))] ^= 1
 	}
 	return base, other, false
+}
+
+// two secrets a user would call "the same" but that are not byte-equal: they differ only in white space
+// or line breaks at the end (what a prompt or a paste leaves behind) or at the start, or in the case of
+// one letter
+func (g *gen) nearMissPair(base []byte) ([]byte, []byte, bool) {
+	cat := func(parts ...[]byte) []byte {
+		var out []byte
+		for _, p := range parts {
+			out = append(out, p...)
+		}
+		return out
+	}
+	tails := [][2]string{{"", "\n"}, {"\r\n", "\n"}, {"", "\r\n"}, {"", "\r"}, {"\n", "\n\n"}, {"\r", "\n"}, {"\n", "\n\r"}, {"", " "}, {"", "\t"}, {"", "\x00"}, {" ", "\n"}, {"\n", "\x00\n"}}
+	var s1, s2 []byte
+	switch k := g.r.Intn(10); {
+	case k < 7: // at the end
+		t := tails[g.r.Intn(len(tails))]
+		if k < 4 {
+			t = tails[g.r.Intn(7)] // line breaks only
+		}
+		s1, s2 = cat(base, []byte(t[0])), cat(base, []byte(t[1]))
+	case k < 9: // at the start
+		h := []string{"\n", "\r\n", " ", "\t", "\x00"}[g.r.Intn(5)]
+		s1, s2 = append([]byte{}, base...), cat([]byte(h), base)
+	default: // case of one letter
+		var letters []int
+		for i, c := range base {
+			if c >= 'a' && c <= 'z' || c >= 'A' && c <= 'Z' {
+				letters = append(letters, i)
+			}
+		}
+		if len(letters) == 0 {
+			return nil, nil, false
+		}
+		s1, s2 = append([]byte{}, base...), append([]byte{}, base...)
+		s2[letters[g.r.Intn(len(letters))]] ^= 0x20
+	}
+	if g.r.Intn(2) == 0 {
+		s1, s2 = s2, s1
+	}
+	return s1, s2, !bytes.Equal(s1, s2)
 }
 
 // one complete honest run started by `ini`; returns (success at initiator, success at responder)
@@ -239,7 +290,7 @@ func (g *gen) smpHonest(w *world) {
 		ini.rnd.forced = nil
 		olog.ok("C11")
 		ei, er := *n.evOf(ini), *n.evOf(res)
-		desc := fmt.Sprintf("OTRv%d, question %q, secrets equal=%v (%q / %q), restart variant %d: initiator events %v, responder events %v", version, q, equal, s1, s2, restart, ei, er)
+		desc := fmt.Sprintf("OTRv%d, question %q, secrets equal=%v (%s / %s), restart variant %d: initiator events %v, responder events %v", version, q, equal, sq(s1), sq(s2), restart, ei, er)
 		if equal {
 			if !hasEv(ei, "smp:6") || !hasEv(er, "smp:6") {
 				olog.viol("C11", "equal-secrets-no-success", desc)
@@ -531,7 +582,7 @@ func (g *gen) smpDeviant(w *world) {
 			n.l.enqueue(p, ts)
 			n.pump(nil)
 		}
-		w.tick(61)
+		w.tick(75)
 		n.l.enqueue(n.a, []otr3.ValidMessage{w.query(n.a)})
 		n.pump(nil)
 		if !n.a.c.IsEncrypted() || !n.b.c.IsEncrypted() || w.dead {
@@ -585,6 +636,9 @@ func (g *gen) smpDeviant(w *world) {
 func sq(b []byte) string {
 	long := bytes.Repeat([]byte("long secret "), 40)
 	if len(b) != len(long) {
+		if i := bytes.Index(b, long); i >= 0 && len(b) > len(long) {
+			return fmt.Sprintf(`%q + "long secret "x40 + %q`, b[:i], b[i+len(long):])
+		}
 		return fmt.Sprintf("%q", b)
 	}
 	d := ""
@@ -710,7 +764,13 @@ func (g *gen) smpRefusedMidRun(w *world) {
 // is under way - may abort that run, but the next complete honest run with equal secrets (whoever
 // starts it, without any explicit abort) succeeds on both sides, and a restarted run answered with
 // another secret reports no success.
-func (g *gen) smpOutOfSequence(w *world, idx int) {
+//
+// force >= 0 chooses the variant: 2 is "the party that has been asked starts a run of its own instead of
+// answering" (its run, answered with the same secret, has to succeed), 5 is a message out of sequence -
+// a second SMP message 1, authentic and not preceded by an abort, reaching the party that has been asked
+// for the secret and has not answered yet: it has to be called off (error or cheating reported, abort
+// sent back), and the fresh run after it succeeds.
+func (g *gen) smpOutOfSequence(w *world, idx int, force int) {
 	version := 2 + g.r.Intn(2)
 	n := g.newSmpNet(w, version)
 	if !n.a.c.IsEncrypted() || !n.b.c.IsEncrypted() {
@@ -728,6 +788,9 @@ func (g *gen) smpOutOfSequence(w *world, idx int) {
 	}
 	if idx%4 == 2 {
 		variant = 4
+	}
+	if force >= 0 {
+		variant = force
 	}
 	caller, asked := ini, res // of the restarted run
 	story := ""
@@ -761,13 +824,80 @@ func (g *gen) smpOutOfSequence(w *world, idx int) {
 		if err == nil {
 			olog.viol("C12", "unexpected-answer-accepted", fmt.Sprintf("OTRv%d: %s", version, story))
 		}
+	case 5:
+		// the request as it travels: type and payload of its SMP TLV
+		var t0 uint16
+		var v0 []byte
+		if len(ts) == 1 {
+			if _, types, values, ok := otr3.VerifPeekTLVs(res.c, ts[0]); ok {
+				for i, t := range types {
+					if t == 2 || t == 7 {
+						t0, v0 = t, values[i]
+					}
+				}
+			}
+		}
+		n.l.enqueue(ini, ts)
+		n.pump(nil)
+		askedFirst := hasEv(*n.evOf(res), "smp:3") || hasEv(*n.evOf(res), "smp:4")
+		if v0 == nil || !askedFirst || w.dead {
+			return // (no request to repeat: nothing to judge here)
+		}
+		// the second request: the same one again, or the same numbers with the question added / changed /
+		// taken away
+		t1, v1, how := t0, v0, "the same request again"
+		mpis := v0
+		if t0 == 7 {
+			mpis = v0[bytes.IndexByte(v0, 0)+1:]
+		}
+		switch g.r.Intn(3) {
+		case 1:
+			t1, v1, how = 7, append([]byte("once more?\x00"), mpis...), `the same numbers with the question "once more?"`
+		case 2:
+			t1, v1, how = 2, mpis, "the same numbers without a question"
+		}
+		second := n.w.sendTLVs(ini, []uint16{t1}, [][]byte{v1})
+		var ev []string
+		abortSent := false
+		for _, m := range second {
+			_, back, _, pan := n.w.recv(res, m)
+			if pan {
+				olog.viol("C12", "smp-panic", fmt.Sprintf("OTRv%d: Receive panicked on a second SMP message 1 (%s) while the user has not answered the first", version, how))
+				olog.viol("C13", "receive-panics:smp", fmt.Sprintf("OTRv%d: Receive panicked on a second SMP message 1 (%s) while the user has not answered the first", version, how))
+				return
+			}
+			ev = append(ev, smpEvents(lastEvents)...)
+			for _, bm := range back {
+				if _, types, _, ok := otr3.VerifPeekTLVs(ini.c, bm); ok {
+					for _, t := range types {
+						if t == 6 {
+							abortSent = true
+						}
+					}
+				}
+			}
+			n.l.enqueue(res, back)
+		}
+		story = fmt.Sprintf("%s calls StartAuthenticate(%q, \"first attempt\"), %s is asked and has not answered yet when a second SMP message 1 from %s arrives (TLV type %d, %s, %d bytes, in an authentic data message of its own, no abort before it): %s reports %v, abort sent back: %v",
+			ini.id, q, res.id, ini.id, t1, how, len(v1), res.id, ev, abortSent)
+		olog.ok("C12")
+		if hasEv(ev, "smp:6") {
+			olog.viol("C12", "out-of-sequence-message-success", fmt.Sprintf("OTRv%d: %s", version, story))
+		}
+		if !(hasEv(ev, "smp:0") || hasEv(ev, "smp:2")) || !abortSent {
+			olog.viol("C12", "out-of-sequence-message-not-aborted", fmt.Sprintf("OTRv%d: %s (expected: error or cheating reported and the run called off with an SMP abort)", version, story))
+		}
+		n.pump(nil)
 	}
 	if w.dead {
 		olog.viol("C12", "smp-panic", "a call panicked: "+story)
 		return
 	}
 	follow := g.r.Intn(3)
-	if variant == 4 {
+	if force == 2 {
+		follow = 1
+	}
+	if variant == 4 || variant == 5 {
 		follow = 0 // no restarted run: straight on to the fresh one
 	} else {
 		ts, _ = n.w.smpStart(caller, q, s)
@@ -789,6 +919,14 @@ func (g *gen) smpOutOfSequence(w *world, idx int) {
 		n.l.enqueue(asked, ts)
 		n.pump(nil)
 		story += fmt.Sprintf("; %s answers %s (err %v)", asked.id, sq(ans), err)
+		if follow == 1 {
+			// the run started by the out-of-sequence call is a fresh run with equal secrets
+			olog.ok("C12")
+			if !w.dead && (!hasEv(n.evA, "smp:6") || !hasEv(n.evB, "smp:6")) {
+				olog.viol("C12", "no-recovery-after-out-of-sequence-call", fmt.Sprintf("OTRv%d: %s: the run started by that call, answered with the same secret, does not succeed: %s events %v, %s events %v",
+					version, story, n.a.id, n.evA, n.b.id, n.evB))
+			}
+		}
 		if follow == 2 {
 			olog.ok("C12")
 			if hasEv(n.evA, "smp:6") || hasEv(n.evB, "smp:6") {
@@ -977,6 +1115,111 @@ func (g *gen) smpLongQuestion(w *world, idx int, v0 int) {
 	}
 }
 
+// C17 (and C11): an SMP request with a question that is the empty string. The serialiser writes it as TLV
+// type 7 whose value starts with the terminating NUL (libotr sends this for otrl_message_initiate_smp_q
+// with ""); StartAuthenticate itself never does, so the request is re-encoded from a genuine one: the
+// initiator's own SMP message 1 (type 2) is held back and its six numbers travel behind an empty question
+// in an authentic data message. The receiver has to read back what was written: it asks its user for the
+// answer, the question it reports is "" (present), and the run ends as the two secrets say.
+func (g *gen) smpEmptyQuestion(w *world) {
+	version := 2 + g.r.Intn(2)
+	n := g.newSmpNet(w, version)
+	if !n.a.c.IsEncrypted() || !n.b.c.IsEncrypted() {
+		return
+	}
+	ini, res := n.a, n.b
+	if g.r.Intn(2) == 0 {
+		ini, res = n.b, n.a
+	}
+	s1, s2, equal := g.secretPair()
+	// From here on the calls are made directly (not written to the trace: the trace format renders an
+	// absent and an empty question alike); the two conversations are not used again afterwards.
+	ev := map[*party]*[]string{ini: {}, res: {}}
+	panicked := false
+	call := func(p *party, f func() ([]otr3.ValidMessage, error)) (ts []otr3.ValidMessage, err error) {
+		if guard(func() string { ts, err = f(); return "" }) == "PANIC" {
+			panicked = true
+		}
+		*ev[p] = append(*ev[p], smpEvents(p.drainEvents())...)
+		return
+	}
+	deliver := func(from *party, ms []otr3.ValidMessage) {
+		type item struct {
+			to *party
+			m  otr3.ValidMessage
+		}
+		peer := map[*party]*party{ini: res, res: ini}
+		var q []item
+		for _, m := range ms {
+			q = append(q, item{peer[from], m})
+		}
+		for i := 0; i < 50 && len(q) > 0 && !panicked; i++ {
+			it := q[0]
+			q = q[1:]
+			back, _ := call(it.to, func() ([]otr3.ValidMessage, error) {
+				_, ts, err := it.to.c.Receive(it.m)
+				return ts, err
+			})
+			for _, m := range back {
+				q = append(q, item{peer[it.to], m})
+			}
+		}
+	}
+	ts, _ := call(ini, func() ([]otr3.ValidMessage, error) { return ini.c.StartAuthenticate("", s1) })
+	var v0 []byte
+	if len(ts) == 1 {
+		if _, types, values, ok := otr3.VerifPeekTLVs(res.c, ts[0]); ok {
+			for i, t := range types {
+				if t == 2 {
+					v0 = values[i]
+				}
+			}
+		}
+	}
+	if v0 == nil || panicked {
+		return
+	}
+	g.dist[fmt.Sprintf("smp:empty-question:v%d:equal=%v", version, equal)]++
+	v1 := append([]byte{0}, v0...)
+	ts, _ = call(ini, func() ([]otr3.ValidMessage, error) { return otr3.VerifSendTLVs(ini.c, nil, []uint16{7}, [][]byte{v1}) })
+	deliver(ini, ts)
+	input := fmt.Sprintf("OTRv%d: SMP message 1 with the empty question (TLV type 7, %d bytes: 00 followed by the count and the six numbers of %s's genuine request, %.24s…), sent by %s in an authentic data message", version, len(v1), ini.id, hx(v0), ini.id)
+	if panicked {
+		olog.viol("C13", "receive-panics:smp", input+": Receive panicked")
+		return
+	}
+	qGot, qSet := res.c.SMPQuestion()
+	olog.ok("C17")
+	if !hasEv(*ev[res], "smp:3") || !qSet || qGot != "" {
+		olog.viol("C17", "empty-question-refused", fmt.Sprintf("%s: the serialised request does not read back as what was written - %s reports %v, SMPQuestion() = (%q, %v); expected: asked for the answer, question \"\" present",
+			input, res.id, *ev[res], qGot, qSet))
+	}
+	if !res.c.IsEncrypted() {
+		return
+	}
+	ts, err := call(res, func() ([]otr3.ValidMessage, error) { return res.c.ProvideAuthenticationSecret(s2) })
+	deliver(res, ts)
+	if panicked {
+		olog.viol("C13", "receive-panics:smp", input+": a call panicked in the run that follows")
+		return
+	}
+	olog.ok("C11")
+	ei, er := *ev[ini], *ev[res]
+	desc := fmt.Sprintf("%s (secret %s); %s answers %s (err %v, equal=%v): initiator events %v, responder events %v", input, sq(s1), res.id, sq(s2), err, equal, ei, er)
+	if equal {
+		if !hasEv(ei, "smp:6") || !hasEv(er, "smp:6") {
+			olog.viol("C11", "equal-secrets-no-success", desc)
+		}
+	} else {
+		if hasEv(ei, "smp:6") || hasEv(er, "smp:6") {
+			olog.viol("C11", "unequal-secrets-success", desc)
+		}
+		if !hasEv(er, "smp:7") || !hasEv(ei, "smp:7") && !hasEv(ei, "smp:1") {
+			olog.viol("C11", "mismatch-not-reported", desc)
+		}
+	}
+}
+
 func init() {
 	profiles["smp"] = func(seed int64, n int, out *emitter, extra map[string]interface{}) map[string]int {
 		g := &gen{r: rand.New(rand.NewSource(seed)), out: out, dist: map[string]int{}}
@@ -1000,7 +1243,7 @@ func init() {
 			if i%2 == 0 {
 				g.smpRefusedMidRun(w)
 			} else {
-				g.smpOutOfSequence(w, i/2)
+				g.smpOutOfSequence(w, i/2, -1)
 			}
 		}
 		// appended: questions at the length limit (C11); few of them, their ops lines are long
@@ -1008,6 +1251,18 @@ func init() {
 		v0 := g.r.Intn(2)
 		for i := 0; i < (n+10)/20; i++ {
 			g.smpLongQuestion(w, i, v0)
+		}
+		// appended: a second request while the first is unanswered, the asked party starting a run of its
+		// own (C12), a request with an empty question (C17, C11)
+		for i := 0; i < (n+9)/10; i++ {
+			switch i % 3 {
+			case 0:
+				g.smpOutOfSequence(w, 0, 5)
+			case 1:
+				g.smpOutOfSequence(w, 0, 2)
+			case 2:
+				g.smpEmptyQuestion(w)
+			}
 		}
 		extra["panics"] = panicCount
 		olog.export(extra)
